@@ -38,9 +38,16 @@ int main(int argc, char** argv) {
         // sequential sample sort, mkqs, work sharing), 2 and 3 workers
         const char* ins[] = {"b,a,b,a,b|w2|p0", "a,a,a,a,a,a|w2|p0", "b,a,ab,aa,b,a,ba|w2|p0", "ab,aa,ab,aa,b,a|w2|p1", "b,a,b,a,b,a|w3|p0",
                              "bb,ba,ab,aa,b,a,bb,ab,a|w2|p3", "a,a,a,a,a,a,a,a,a,a,a,a|w2|p0", "ab,ab,aa,ab,aa,ab,b,a,ab|w3|p5", "b,a,c,b,a,c|w2|p4"};
+        // thorough only: std::string sets, the 64-bit-key / larger-threshold parameter sets, another sampler seed
+        const char* ins_t[] = {"b,a,b,a,b,a|w2|p2", "ab,aa,ab,aa,b,a,ab,aa,b|w2|p6", "a,a,a,a,a,a,a,a,a|w3|p2", "bb,ba,ab,aa,b,a,bb|w2|p5"};
+        std::vector<std::pair<std::string, bool>> all;
         for (const char* in : ins)
-            for (int l = 0; l <= 1; ++l) {
-                Case c = parse_case(std::string(in) + vh::fmt("|l%d|s0|r1", l));
+            for (int l = 0; l <= 1; ++l) all.push_back({std::string(in) + vh::fmt("|l%d|s0|r1", l), false});
+        for (const char* in : ins_t)
+            for (int l = 0; l <= 1; ++l) all.push_back({std::string(in) + vh::fmt("|l%d|s1|r2", l), true});
+        for (auto& ent : all)
+            for (int once = 0; once < 1; ++once) {
+                Case c = parse_case(ent.first);
                 vx::Scenario s;
                 s.name = "ps5:" + c.str();
                 s.family = c.label();
@@ -51,6 +58,7 @@ int main(int argc, char** argv) {
                 s.delay = true;
                 s.bound_quick = 1;
                 s.bound_thorough = 2;
+                s.thorough_only = ent.second;
                 s.horizon = 400000;
                 scs.push_back(s);
             }
